@@ -1,4 +1,4 @@
-(* C18 — proofs about the equality projection, the variable conversion, the Taylor partial sums of exp and the
+(* C18 — proofs about the equality projection, the Taylor partial sums of exp and the
    trace-preservation reading of "first row zero".  Generic in the ordered field; axiom-free. *)
 From Coq Require Import Field Ring Setoid Arith Lia Bool List.
 From QV.Core Require Import OF Sums Mat Cplx Psd.
@@ -64,38 +64,14 @@ Proof. intros HZ. rewrite (proj_eq_pythagoras n X Z HZ). apply le_sub.
   replace (dist2 n X (proj_eq X) + dist2 n (proj_eq X) Z - dist2 n X (proj_eq X)) with (dist2 n (proj_eq X) Z) by ring.
   apply dist2_nonneg. Qed.
 
-(* the inherited (Gate) projection on variable vectors is NOT this projection: it writes a 1 *)
-Lemma proj_eq_var_code_entry0 n (v : rvec) : proj_eq_var_code F n false v 0%nat = 1.
-Proof. reflexivity. Qed.
-Lemma proj_eq_var_fix_spec n (v : rvec) k :
-  proj_eq_var_fix F n false v k = vecr n (proj_eq (unvecr n v)) k \/ (n = 0)%nat.
-Proof. destruct n as [|n]; [now right|left]. unfold proj_eq_var_fix, vecr, proj_eq, unvecr.
-  destruct (Nat.ltb_spec k (S n)) as [Hk|Hk].
-  - rewrite Nat.div_small by exact Hk. reflexivity.
-  - destruct (Nat.eqb_spec (k / S n) 0) as [E|E].
-    + apply Nat.div_small_iff in E; lia.
-    + f_equal. rewrite Nat.mul_comm. apply Nat.div_mod_eq. Qed.
-
-(* ------------------------------------------------------------------ variables *)
-(* corrected conversion: round trip is the identity exactly on the generators with zero first row *)
-Lemma from_to_var_fix_eq n (X : rmat) : row0_zero n X -> meq n n (from_var_fix F n true (to_var F n true X)) X.
-Proof. intros H i j Hi Hj. unfold from_var_fix, to_var, vecr. destruct i as [|i]. { now rewrite H. }
-  replace (n + (i * n + j))%nat with (S i * n + j)%nat by lia.
-  now destruct (divmod_flat (S i) j n Hj) as [-> ->]. Qed.
-Lemma from_to_var_fix_noeq n (X : rmat) : meq n n (from_var_fix F n false (to_var F n false X)) X.
-Proof. intros i j Hi Hj. unfold from_var_fix, to_var. now apply unvecr_vecr. Qed.
-Lemma to_from_var_fix n on_eq (v : rvec) k : (0 < n)%nat -> to_var F n on_eq (from_var_fix F n on_eq v) k = v k.
-Proof. intros Hn. destruct on_eq; unfold to_var, from_var_fix.
-  - unfold vecr.
-    assert (E1 : ((n + k) / n = S (k / n))%nat). { replace (n + k)%nat with (k + 1 * n)%nat by lia. rewrite Nat.div_add by lia. lia. }
-    assert (E2 : ((n + k) mod n = k mod n)%nat). { replace (n + k)%nat with (k + 1 * n)%nat by lia. apply Nat.mod_add; lia. }
-    rewrite E1, E2. f_equal. pose proof (Nat.div_mod_eq k n) as E. nia.
-  - now apply vecr_unvecr. Qed.
-(* as coded: the first row comes back as (1, 0, ..., 0) whatever the generator was *)
-Lemma from_var_code_row0 n (v : rvec) : from_var_code F n true v 0%nat 0%nat = 1.
-Proof. reflexivity. Qed.
-Lemma from_var_code_rest n (v : rvec) i j : from_var_code F n true v (S i) j = from_var_fix F n true v (S i) j.
-Proof. reflexivity. Qed.
+(* bundled statements for Props/C18.v *)
+Lemma proj_eq_exact n (X : rmat) :
+  row0_zero n (proj_eq X) /\ (forall i j, i <> 0%nat -> proj_eq X i j = X i j) /\
+  (row0_zero n X -> meq n n (proj_eq X) X) /\ (forall i j, proj_eq (proj_eq X) i j = proj_eq X i j).
+Proof. split; [apply proj_eq_row0|]. split; [intros; now apply proj_eq_other|]. split; [apply proj_eq_fix|apply proj_eq_idem]. Qed.
+Lemma proj_eq_nearest_point n (X Z : rmat) : row0_zero n Z ->
+  dist2 n X Z = dist2 n X (proj_eq X) + dist2 n (proj_eq X) Z /\ dist2 n X (proj_eq X) <= dist2 n X Z.
+Proof. intros H. split; [now apply proj_eq_pythagoras|now apply proj_eq_nearest]. Qed.
 
 (* ------------------------------------------------------------------ Taylor partial sums:  first row of L zero  =>  first row e_0 *)
 Lemma mmul_row0 n (L M : rmat) j : row0_zero n L -> mmul n L M 0%nat j = 0.
